@@ -52,7 +52,7 @@ func racDir() string {
 // supportHarness: bounded harnesses run in support of a property whose own deciding obligations are
 // per-function contracts: the optimizer and the compiler sit between those contracts and what a script
 // observes, and are themselves only covered by the bounded checks.
-var supportHarness = map[string][]string{"C01": {"C02", "C03", "C14"}, "C05": {"C02", "C03"}, "C15": {"C03"}, "C16": {"C03"}, "C08": {"C08", "C13"}, "C13": {"C13", "C08"}, "C12": {"C13"}, "C14": {"C14"}}
+var supportHarness = map[string][]string{"C01": {"C02", "C03", "C14"}, "C05": {"C02", "C03"}, "C15": {"C03"}, "C16": {"C03"}, "C08": {"C08", "C13"}, "C13": {"C13", "C08"}, "C12": {"C13", "C03"}, "C14": {"C14"}}
 
 func runBounded(id, tier string, seed int, findings []*finding, res *propResult) (violLines, knownLines, notes []string) {
 	return runHarness(id, id, tier, seed, findings, res)
